@@ -1,3 +1,4 @@
+import Firebolt.Properties.TransBase
 import Firebolt.Spec.Params
 import Firebolt.Generated.Source
 import Firebolt.Expected.Source
@@ -343,6 +344,53 @@ theorem source_withConfig : GeneratedSrc.withConfig = ExpectedSrc.withConfig := 
 
 /-! ### influence closure: the pinned functions, and every function of the repository that writes a struct field or package
 variable they read, are unchanged (digests regenerated from /repo on every run; a difference names the functions) -/
+/-! ### The code itself, translated (`Generated/Trans.lean`, rewritten from /repo on every run by extractor/translate.go)
+
+The `translated_*` theorems are about MiniGo terms the translator produced from the current Go source: for every
+environment the translated fragment does what the hand-written model function says.  They are semantic obligations —
+a rewrite that preserves the behaviour keeps them provable, a changed comparison, bound or argument does not. -/
+section Translated
+open Firebolt.MiniGo Firebolt.TransBase
+
+/-- IntConfigRequired, translated: an error iff the key is absent, the value is not an integer for `strconv.Atoi`, or the
+integer lies outside `[min, max]` (compared as integers); otherwise exactly the parsed integer.  `Atoi` is applied to the
+value found under the name. -/
+theorem translated_intConfigRequired (σ : Env) :
+    let r := run Trans.intConfigRequired σ
+    let v := σ "strconv.Atoi#0"
+    r.stuck = false ∧
+    r.ret = (if σ "lookup c#1" = 0 ∨ σ "strconv.Atoi#1" ≠ 0 ∨ v > σ "maxValue" ∨ v < σ "minValue"
+             then some [0, σ "fmt.Errorf#0"] else some [v, 0]) ∧
+    (σ "lookup c#1" ≠ 0 → ("strconv.Atoi", [σ "lookup c#0"]) ∈ r.calls) ∧
+    r.calls.head? = some ("lookup c", [σ "name"]) := by
+  by_cases h1 : σ "lookup c#1" = 0 <;> by_cases h2 : σ "strconv.Atoi#1" = 0 <;>
+  by_cases h3 : σ "strconv.Atoi#0" > σ "maxValue" <;> by_cases h4 : σ "strconv.Atoi#0" < σ "minValue" <;>
+  minigo_simp [Trans.intConfigRequired, h1, h2, h3, h4] <;> (try omega)
+
+/-- IntConfig: an absent key is first set to `Itoa(default)` (a present one is left alone), then the required getter decides -/
+theorem translated_intConfig (σ : Env) :
+    let r := run Trans.intConfig σ
+    r.stuck = false ∧ r.ret = some [σ "c.IntConfigRequired#0"] ∧
+    r.env "c[name]" = (if σ "lookup c#1" = 0 then σ "strconv.Itoa#0" else σ "c[name]") ∧
+    r.calls = [("lookup c", [σ "name"])] ++ (if σ "lookup c#1" = 0 then [("strconv.Itoa", [σ "defaultValue"])] else []) ++
+              [("c.IntConfigRequired", [σ "name", σ "minValue", σ "maxValue"])] := by
+  by_cases h1 : σ "lookup c#1" = 0 <;> minigo_simp [Trans.intConfig, h1]
+
+/-- StringConfigRequired: the value found, whatever it is (the empty string included), or an error iff the key is absent -/
+theorem translated_stringConfigRequired (σ : Env) :
+    (run Trans.stringConfigRequired σ).ret =
+      (if σ "lookup c#1" = 0 then some [σ "\"\"", σ "fmt.Errorf#0"] else some [σ "lookup c#0", 0]) ∧
+    (run Trans.stringConfigRequired σ).stuck = false := by
+  by_cases h1 : σ "lookup c#1" = 0 <;> minigo_simp [Trans.stringConfigRequired, h1]
+
+/-- StringConfig: an absent key is set to the default as it is; a present one is left alone -/
+theorem translated_stringConfig (σ : Env) :
+    let r := run Trans.stringConfig σ
+    r.stuck = false ∧ r.ret = some [σ "c.StringConfigRequired#0"] ∧
+    r.env "c[name]" = (if σ "lookup c#1" = 0 then σ "defaultValue" else σ "c[name]") := by
+  by_cases h1 : σ "lookup c#1" = 0 <;> minigo_simp [Trans.stringConfig, h1]
+end Translated
+
 theorem closure_unchanged : GeneratedClo.C20 = ExpectedClo.C20 := by rfl
 
 end Firebolt.C20
